@@ -9,12 +9,14 @@
    the header text round trip for every normalised header tree of any depth, line splitting, totality of the header
    parser (no out-of-range index, termination within 2*lines+1 steps) on every byte string, the size bounds of
    readUntil and of every assertion a Decoder.Decode call hands on, and that Decoder.Decode never panics (the negative
-   body-length panic found by this check is repaired in /repo, commit 94ffaa1).
-   Not proved (monitored on the implementation by the differential run): that the result of the stream decoder does not
+   body-length panic found by this check is repaired in /repo, commit 94ffaa1),
+   the byte-level round trip of a whole serialized assertion (C20_assertion_roundtrip), and that bufio-style Peek does not
+   depend on the reader's chunking (C20_peek_chunking_independent).
+   Not proved (monitored on the implementation by the differential run): the stream version of the round trip (Decoder.Decode
+   over the concatenation of k encodings returns exactly those k assertions, then EOF); that the result of the stream decoder does not
    depend on how the underlying reader splits the bytes (the model abstracts bufio.Reader.Peek as delivering the requested
    bytes; the driver reads every boundary-placed stream through readers handing out 1, 2, 3, 7, B-1, B, B+1 or random
-   numbers of bytes per Read, also with the last bytes delivered together with EOF), the content/signature/body splitting of a
-   whole encoded assertion, the per-type checks of assemble, and absence of hangs in the real decoder. *)
+   numbers of bytes per Read, also with the last bytes delivered together with EOF), the per-type checks of assemble, and absence of hangs in the real decoder. *)
 From Coq Require Import List NArith ZArith Bool String.
 Import ListNotations.
 Require Import V.lib.Bytes V.models.AssertCodec V.proofs.AssertCodecProofs.
@@ -40,6 +42,37 @@ Print Assumptions C20_split_join.
 Theorem C20_join_split : forall s, join_lines (split_lines s) = s.
 Proof. exact join_split. Qed.
 Print Assumptions C20_join_split.
+
+(* Decode (Encode a) at byte level: for every normalised header tree h, every body and every signature text, the
+   serialized form (header lines, blank line + body if the body is not empty, blank line, signature) is split and
+   parsed back to exactly (h, body, signature).  Constraints of the format, all of them hypotheses: the lines of header
+   strings contain no newline byte, the header text is valid UTF-8, the signature has no blank line inside and does not
+   start with a newline.  The body is arbitrary (blank lines and trailing newlines included).  That assemble then accepts
+   the parts (body-length header = length of the body, type-specific checks) is outside the model. *)
+Theorem C20_assertion_roundtrip : forall h body sig,
+  norm_headers h = true -> h <> [] ->
+  forallb no_nl (format_headers h) = true -> utf8_valid (join_lines (format_headers h)) = true ->
+  cut_first_nlnl sig = None -> has_prefix [NL] sig = false ->
+  decode_parts (encode_assertion h body sig) = Ok (mkParts h body sig).
+Proof. exact assertion_roundtrip. Qed.
+Print Assumptions C20_assertion_roundtrip.
+
+(* bufio.Reader.Peek(n) over a reader that hands out its data in arbitrary pieces returns the first n of the bytes still
+   to come, or all of them with EOF if there are fewer - whatever the pieces: this is the [peek] the stream decoder model
+   is built on.  (Assumed about bufio: see models/AssertCodec.v at peek_fill.)  The stream decoder touches its reader
+   only through peek and Discard, so its result does not depend on the chunking; that last lifting step is not a
+   theorem here (monitored with the chopped readers). *)
+Theorem C20_peek_chunking_independent : forall n buf1 chunks1 buf2 chunks2,
+  buf1 ++ List.concat chunks1 = buf2 ++ List.concat chunks2 -> chunk_peek n buf1 chunks1 = chunk_peek n buf2 chunks2.
+Proof. exact chunk_peek_independent. Qed.
+Print Assumptions C20_peek_chunking_independent.
+
+Theorem C20_peek_is_flat_peek : forall n buf chunks,
+  chunk_peek n buf chunks =
+  let flat := buf ++ List.concat chunks in
+  if Nat.ltb (List.length flat) n then (flat, true) else (firstn n flat, false).
+Proof. exact chunk_peek_flat. Qed.
+Print Assumptions C20_peek_is_flat_peek.
 
 (* the parser never indexes out of range and never runs out of its fuel of 2*lines+1 steps, whatever the input *)
 Theorem C20_no_panic : forall head, parse_headers head = Err \/ exists h, parse_headers head = Ok h.
@@ -101,6 +134,10 @@ Example C20_ex_tree : list (bytes * hv) :=
 Example C20_ex_norm : norm_headers C20_ex_tree = true.
 Proof. vm_compute. reflexivity. Qed.
 Example C20_ex_roundtrip : parse_headers (join_lines (format_headers C20_ex_tree)) = Ok C20_ex_tree.
+Proof. vm_compute. reflexivity. Qed.
+Example C20_ex_assertion :
+  decode_parts (encode_assertion C20_ex_tree (bs "body" ++ [10; 10] ++ bs "more" ++ [10]) (bs "AcLBXAQ=" ++ [10]))
+  = Ok (mkParts C20_ex_tree (bs "body" ++ [10; 10] ++ bs "more" ++ [10]) (bs "AcLBXAQ=" ++ [10])).
 Proof. vm_compute. reflexivity. Qed.
 Example C20_ex_dropped : parse_header_lines (format_headers dropped_tree) = Ok [(bs "foo", Lst [Str [bs "a"]])].
 Proof. vm_compute. reflexivity. Qed.
